@@ -134,6 +134,66 @@ theorem async_match (T d start : Nat) : ∀ (strays : List Arrival) (now : Nat) 
     rw [if_neg (by omega)]
     exact ih _ r rest hm hr hlt
 
+/-- the loop with the explicit socket option is the loop with one deadline, as long as the armed
+value is what is left of the timeout -/
+theorem armed_is_remaining (T d start : Nat) : ∀ (arrivals : List Arrival) (now cur : Nat),
+    start ≤ now → now + cur = start + T →
+    (syncRecvS T d start now cur arrivals).1 = syncRecv T d start now arrivals := by
+  intro arrivals
+  induction arrivals with
+  | nil => intro now cur _ h; simp [syncRecvS, syncRecv, h]
+  | cons a rest ih =>
+    intro now cur hsn h
+    unfold syncRecvS syncRecv
+    simp only [h]
+    split
+    · rfl
+    · rename_i hlt
+      cases a.kind with
+      | reply => rfl
+      | garbage => rfl
+      | stray =>
+        simp only
+        split
+        · rfl
+        · rename_i h2
+          exact ih _ _ (by omega) (by omega)
+
+/-- **C18.call_restores**: a call leaves the socket armed with the configured timeout, however it
+ended (delivered, timed out after skipping datagrams, decode error) -/
+theorem call_restores (d : Nat) (s : Sock) (start : Nat) (arrivals : List Arrival)
+    (h : s.armed = s.configured) :
+    (syncCall d s start arrivals).1.armed = s.configured ∧
+    (syncCall d s start arrivals).1.configured = s.configured :=
+  ⟨h, rfl⟩
+
+/-- **C18.calls_bounded**: over any history of calls on one session, every call ends within the
+configured timeout (plus the processing of one datagram), whatever the earlier calls did -/
+theorem calls_bounded (d : Nat) : ∀ (calls : List (Nat × List Arrival)) (s : Sock), s.armed = s.configured →
+    ∀ (k : Nat) (hk : k < calls.length), ((syncCalls d s calls)[k]?).isSome ∧
+      ∀ e, (syncCalls d s calls)[k]? = some e → e.time ≤ (calls[k]).1 + s.configured + d := by
+  intro calls
+  induction calls with
+  | nil => intro s _ k hk; simp at hk
+  | cons c rest ih =>
+    intro s hs k hk
+    obtain ⟨start, arr⟩ := c
+    simp only [syncCalls]
+    cases k with
+    | zero =>
+      simp only [List.getElem?_cons_zero, Option.isSome_some, Option.some.injEq, true_and, List.getElem_cons_zero]
+      intro e he
+      subst he
+      simp only [syncCall]
+      rw [armed_is_remaining s.armed d start arr start s.armed (Nat.le_refl _) rfl, hs]
+      exact sync_deadline s.configured d start arr start (by omega)
+    | succ k =>
+      have hr := call_restores d s start arr hs
+      have := ih (syncCall d s start arr).1 (by rw [hr.1, hr.2]) k (by simpa using hk)
+      simp only [List.getElem?_cons_succ, List.getElem_cons_succ]
+      rw [hr.2] at this
+      exact this
+
 /-- `k` stray datagrams spaced `T - 1` apart, starting at `from` -/
 def drip (T : Nat) : Nat → Nat → List Arrival
   | _, 0 => []
